@@ -254,6 +254,21 @@ func (w *rw) dump() string {
 	return b.String()
 }
 
+// retryTimers counts held files with an armed 10 s retry timer.
+func (w *rw) retryTimers() int {
+	n := 0
+	w.st.waitLock.RLock()
+	for _, ff := range w.st.wait {
+		for _, f := range ff {
+			if f.wait != nil {
+				n++
+			}
+		}
+	}
+	w.st.waitLock.RUnlock()
+	return n
+}
+
 // bucket classifies an instant relative to now by the thresholds the stage uses.
 func bucket(now, t time.Time) string {
 	if t.IsZero() {
